@@ -218,6 +218,62 @@ func rtAdoptScenario(lease time.Duration) rtResult {
 	return res
 }
 
+// rtHandoverScenario: the contender waits behind the holder for `waitLeases` lease periods (the holder is
+// alive and renewing, or dead from the start), acquires, and then HOLDS for two lease periods: its record must
+// be there all the time and nobody else may get the lock — the lease of a lock obtained after a long wait is as
+// good as any other.
+func rtHandoverScenario(lease time.Duration, dead bool) rtResult {
+	name := fmt.Sprintf("handover dead=%v lease=%v", dead, lease)
+	res := rtResult{name: name}
+	st := &rtStore{Storage: inmem.New()}
+	ph := dist.NewKvsLockProvider(st, "/rt/")
+	pc := dist.NewKvsLockProvider(st, "/rt/")
+	pt := dist.NewKvsLockProvider(st, "/rt/")
+	for _, p := range []dist.LockProvider{ph, pc, pt} {
+		dist.VerifSetLease(p, lease)
+	}
+	defer ph.Shutdown()
+	defer pc.Shutdown()
+	defer pt.Shutdown()
+	holder := ph.NewLocker("l")
+	cont := pc.NewLocker("l")
+	third := pt.NewLocker("l").(tryLocker)
+	holder.Lock()
+	if dead {
+		atomic.StoreInt32(&st.failAfter, 1) // none of the holder's renewals reaches the storage
+	}
+	got := make(chan struct{})
+	go func() { cont.Lock(); close(got) }()
+	if !dead {
+		time.Sleep(lease * 3 / 2)
+		holder.Unlock()
+	}
+	select {
+	case <-got:
+	case <-time.After(4 * lease):
+		res.bad = "the waiting contender did not acquire within 4 lease periods"
+		return res
+	}
+	atomic.StoreInt32(&st.failAfter, 0)
+	// the contender holds: for two lease periods the record exists and the third party cannot acquire
+	bg := context.Background()
+	end := time.Now().Add(2 * lease)
+	for time.Now().Before(end) {
+		if third.TryLock(bg) {
+			res.bad = "a third Locker acquired the lock while the contender (which obtained it after a long wait) was holding it"
+			third.Unlock()
+			break
+		}
+		if it, err := st.ListKeys(bg, "*"); err == nil && !it.HasNext() {
+			res.bad = "the lock is held (obtained after a long wait) but its record is gone"
+			break
+		}
+		time.Sleep(lease / 40)
+	}
+	cont.Unlock()
+	return res
+}
+
 func runLockRT(ctx *Ctx) {
 	lease := 300 * time.Millisecond
 	type sc struct {
@@ -267,6 +323,23 @@ func runLockRT(ctx *Ctx) {
 		ctx.R.Comment(r.name + ": " + r.info)
 		if r.bad != "" {
 			ctx.R.Quiet("mon C05-"+map[string]string{"steady": "lease-kept-while-held", "transient": "lease-kept-after-transient-error", "death": "dead-holder-released", "unlock-race": "renewal-dies-after-unlock"}[scs[i].kind], r.name+": "+r.bad)
+		}
+	}
+	for _, dead := range []bool{false, true} {
+		rh := rtHandoverScenario(lease, dead)
+		if rh.bad != "" {
+			if r2 := rtHandoverScenario(2*lease, dead); r2.bad == "" {
+				ctx.R.Stats.Notes = append(ctx.R.Stats.Notes, "timing flake discarded: "+rh.name+": "+rh.bad)
+				rh.bad = ""
+			} else {
+				rh.bad = r2.bad
+			}
+		}
+		ctx.R.Case("realtime")
+		ctx.R.Nontrivial("handover")
+		ctx.R.Op(fmt.Sprintf("scenario handover-%v", dead), "ok")
+		if rh.bad != "" {
+			ctx.R.Quiet("mon C05-lease-kept-while-held", rh.name+": "+rh.bad)
 		}
 	}
 	// Unlock while a renewal is in flight + transient failure of that call + a new holder
